@@ -123,6 +123,29 @@ theorem itemLabels_single_ins (i : Ins) : itemLabels [Item.ins i] = [] := rfl
 theorem curOf_nil_append (ol : Open) (pre : List Item) : curOf ol (pre ++ []) = curOf ol pre := by
   rw [List.append_nil]
 
+/-- the arguments of a call, lowered one after the other -/
+theorem lowerArgs_good (cs : Bool) (σ : List Nat) (es : List Expr) :
+    ∀ c : Ctx, c.lastid ≤ (lowerArgs cs σ es c).2.2.lastid ∧ c.blockid ≤ (lowerArgs cs σ es c).2.2.blockid ∧
+      LabelsIn (fun j => c.blockid < j ∧ j ≤ (lowerArgs cs σ es c).2.2.blockid)
+        (itemLabels (lowerArgs cs σ es c).1) ∧
+      (∀ (ol : Open) (pre : List Item), curOf ol pre = c.cur →
+        curOf ol (pre ++ (lowerArgs cs σ es c).1) = (lowerArgs cs σ es c).2.2.cur) ∧
+      (CurOK c → CurOK (lowerArgs cs σ es c).2.2) := by
+  induction es with
+  | nil => intro c; exact ⟨Nat.le_refl _, Nat.le_refl _, LabelsIn.nil _, fun ol pre h => by simpa [lowerArgs] using h, id⟩
+  | cons e es ih =>
+    intro c
+    have g := funcexpr2_good cs σ e c
+    obtain ⟨l2, b2, lab2, cur2, ok2⟩ := ih (funcexpr2 cs σ e c).ctx
+    simp only [lowerArgs]
+    have l1 := g.lastid; have b1 := g.blockid
+    refine ⟨by omega, by omega, ?_, ?_, fun h => ok2 (g.curOK h)⟩
+    · rw [itemLabels_append]
+      exact (g.labels.append lab2 (by intro j h1 h2; omega)).weaken (by intro j h; omega)
+    · intro ol pre hp
+      rw [← List.append_assoc]
+      exact cur2 ol _ (g.cur ol pre hp)
+
 /-- counters and labels of the `casesearch` ladder -/
 theorem ladder_good (w : Bool) (v : Val) (lab : Nat → String) (dl : String) (t : Tree.T) :
     ∀ c : Ctx, c.lastid ≤ (ladder w v lab dl t c).2.lastid ∧ c.blockid ≤ (ladder w v lab dl t c).2.blockid ∧
@@ -782,6 +805,60 @@ theorem funcstmt_good' (cs : Bool) (st : Stmt) : ∀ (brk cont : String) (c : SC
     · intro sl hsl
       unf
       have := hb3 sl hsl; omega
+  | call dst rt fn args =>
+    intro brk cont c hj0 _
+    have hj : c.jump = none := by
+      rcases hj0 with h | h
+      · exact h
+      · simp [Stmt.startsLabel] at h
+    clear hj0
+    obtain ⟨l1, b1, lab1, cur1, ok1⟩ := lowerArgs_good cs c.slots args c.ctx
+    simp only [funcstmt, funcopen_none hj, List.nil_append]
+    generalize hla : lowerArgs cs c.slots args c.ctx = la at l1 b1 lab1 cur1 ok1 ⊢
+    unf at l1 b1
+    cases dst with
+    | none =>
+      refine ⟨by unf; omega, by unf; omega, ?_, ?_, ?_, fun _ => hj,
+        fun new h => sorted_of_eq (new' := []) (by rw [List.append_nil]; exact h) List.Pairwise.nil,
+        [], by simp, rfl, by simp, rfl⟩
+      · simp only [itemLabels_append, itemLabels, List.append_nil]
+        exact lab1.weaken (by intro j h; unf at h ⊢; omega)
+      · intro ol pre hp
+        rw [← List.append_assoc, curOf_ins]
+        exact cur1 ol pre hp
+      · intro hc
+        obtain ⟨name, j, h1, h2⟩ := ok1 hc
+        exact ⟨name, j, h1, h2⟩
+    | some d =>
+      obtain ⟨i, t⟩ := d
+      have s3 : Straight ⟨la.2.2.lastid + 1, la.2.2.blockid, la.2.2.cur⟩
+          (if t = rt then ⟨[], .tmp (tmpName (la.2.2.lastid + 1)), ⟨la.2.2.lastid + 1, la.2.2.blockid, la.2.2.cur⟩⟩
+           else convert cs ⟨la.2.2.lastid + 1, la.2.2.blockid, la.2.2.cur⟩ t rt
+            (.tmp (tmpName (la.2.2.lastid + 1)))) := by
+        split
+        · exact Straight.refl _ _
+        · exact convert_straight _ _ _ _ _
+      dsimp only
+      generalize hov : (if t = rt then (⟨[], .tmp (tmpName (la.2.2.lastid + 1)),
+          ⟨la.2.2.lastid + 1, la.2.2.blockid, la.2.2.cur⟩⟩ : Out)
+          else convert cs ⟨la.2.2.lastid + 1, la.2.2.blockid, la.2.2.cur⟩ t rt
+            (.tmp (tmpName (la.2.2.lastid + 1)))) = ov at s3 ⊢
+      have l3 := s3.lastid; have b3 := s3.blockid; have c3 := s3.cur
+      dsimp only at l3 b3 c3
+      refine ⟨by unf; omega, by unf; omega, ?_, ?_, ?_, fun _ => hj,
+        fun new h => sorted_of_eq (new' := []) (by rw [List.append_nil]; exact h) List.Pairwise.nil,
+        [], by simp, rfl, by simp, rfl⟩
+      · simp only [itemLabels_append, itemLabels, storeIns, itemLabels_allIns _ s3.allIns, List.append_nil]
+        exact lab1.weaken (by intro j h; unf at h ⊢; omega)
+      · intro ol pre hp
+        simp only [← List.append_assoc, storeIns]
+        rw [curOf_ins, curOf_append_allIns _ _ _ s3.allIns, curOf_ins]
+        unf
+        rw [c3]
+        exact cur1 ol pre hp
+      · intro hc
+        obtain ⟨name, j, h1, h2⟩ := ok1 hc
+        exact ⟨name, j, by unf; rw [c3]; exact h1, by unf; omega⟩
 
 /-- the statement starts in a block without pending jump -/
 theorem funcstmt_good (cs : Bool) (st : Stmt) (brk cont : String) (c : SCtx) (hj : c.jump = none)
